@@ -69,7 +69,9 @@ def do_OP_2SWAP(stack: Any) -> None:
 
 
 def do_OP_IFDUP(stack: Any) -> None:
-    if stack[-1]:
+    # a VM knows which byte strings are false (b"", zeros, negative zero)
+    is_true = getattr(stack, "bool_from_script_bytes", bool)
+    if is_true(stack[-1]):
         stack.append(stack[-1])
 
 
